@@ -168,7 +168,7 @@ def make_pulse_sequence(transform, values, duration, rf, offset=None):
     nvalue = len(values)
 
     ndim = len(np.shape(rf))
-    if ndim > 1:
+    if ndim > 0:
         values = values.reshape((nvalue,) + (1,) * ndim)
 
     # operator durations
